@@ -12,7 +12,7 @@ any other error.  The buffer sizes std chooses are a parameter (`want`), the the
 namespace Kp.Io
 
 inductive ErrKind where
-  | other | unexpectedEof | writeZero | brokenPipe
+  | other | unexpectedEof | writeZero | brokenPipe | invalidData | invalidInput | timedOut
   deriving DecidableEq, Repr, Inhabited
 
 inductive RStep where
